@@ -268,7 +268,7 @@ def run(ctx):
             arrs = {a[1] for a in v.all_atoms() if a[0] == "i"}
             if len(arrs) == 1:
                 C = arrs.pop()
-                ok = same_geo and sts[0].idx == (k,) and v in (K.to_int(E_(C, k, ZERO) * W + E_(C, k, ONE)), E_(C, k, ZERO) * W + E_(C, k, ONE)) and C.endswith("grid_pixels_2d_slim")
+                ok = same_geo and sts[0].idx == (k,) and v in (K.to_int(E_(C, k, ZERO) * W + E_(C, k, ONE)), E_(C, k, ZERO) * W + E_(C, k, ONE)) and C.startswith("grid_pixel_centres_2d_slim_from#")   # the array returned by that routine, whatever it is called inside
                 ok = ok and sts[0].loops[0].lo == ZERO and sts[0].loops[0].step == ONE
     ctx.ob("C02.index", f.key, ok, where=f, node=f.node, construct=det, message="flattened index must be row * W + col (W = shape_native[1]) of the integer pixel coordinates obtained with the same shape, scales and origin")
     # --- grid from mask
